@@ -79,27 +79,29 @@ mutual
 end
 
 /-- `attachments[num]` with Python's index rules (`bool` is an `int`, negative indices count from
-    the end, other types raise `TypeError`, a missing index `IndexError`). -/
-def pyIndex (atts : List Bytes) : J → Except Err J
+    the end, other types raise `TypeError`, a missing index `IndexError`).  Attachments are
+    arbitrary values: the server appends whatever frame arrives while a binary packet is pending
+    (a text frame too), without a type test. -/
+def pyIndex (atts : List J) : J → Except Err J
   | .int i =>
     if 0 ≤ i then
       match atts[i.toNat]? with
-      | some b => .ok (.bin b)
+      | some b => .ok b
       | none => .error .indexError
     else if i.natAbs ≤ atts.length then
       match atts[atts.length - i.natAbs]? with
-      | some b => .ok (.bin b)
+      | some b => .ok b
       | none => .error .indexError
     else .error .indexError
   | .bool b =>
     match atts[if b then 1 else 0]? with
-    | some x => .ok (.bin x)
+    | some x => .ok x
     | none => .error .indexError
   | _ => .error .typeError
 
 mutual
   /-- `_reconstruct_binary_internal` -/
-  def recon (atts : List Bytes) : J → Except Err J
+  def recon (atts : List J) : J → Except Err J
     | .arr xs => do let r ← reconL atts xs; pure (.arr r)
     | .obj kvs =>
       if (match lookup "_placeholder".toList kvs with | some v => v.truthy | none => false) then
@@ -108,13 +110,13 @@ mutual
         | none => do let r ← reconO atts kvs; pure (.obj r)
       else do let r ← reconO atts kvs; pure (.obj r)
     | j => .ok j
-  def reconL (atts : List Bytes) : List J → Except Err (List J)
+  def reconL (atts : List J) : List J → Except Err (List J)
     | [] => .ok []
     | x :: xs => do
       let r ← recon atts x
       let rs ← reconL atts xs
       pure (r :: rs)
-  def reconO (atts : List Bytes) : List (Str × J) → Except Err (List (Str × J))
+  def reconO (atts : List J) : List (Str × J) → Except Err (List (Str × J))
     | [] => .ok []
     | (k, x) :: xs => do
       let r ← recon atts x
@@ -229,7 +231,7 @@ def decode (cls : Char → DC) (loads : Str → Except Err J) (s : Str) : Except
 structure Partial where
   pkt : Packet
   need : Nat
-  got : List Bytes
+  got : List J
   deriving Repr, Inhabited
 
 inductive AttRes where
@@ -238,7 +240,7 @@ inductive AttRes where
   deriving Repr
 
 /-- `add_attachment`. (`data = None` stays `None`: `_reconstruct_binary_internal(None)` is `None`.) -/
-def addAttachment (p : Partial) (b : Bytes) : Except Err AttRes :=
+def addAttachment (p : Partial) (b : J) : Except Err AttRes :=
   if p.need ≤ p.got.length then .error .valueError
   else
     let got := p.got ++ [b]
@@ -251,7 +253,7 @@ def addAttachment (p : Partial) (b : Bytes) : Except Err AttRes :=
     else pure (.more { p with got := got })
 
 /-- Hand back a list of attachments one by one. `none` while incomplete. -/
-def feed (p : Partial) : List Bytes → Except Err (Partial ⊕ Packet)
+def feed (p : Partial) : List J → Except Err (Partial ⊕ Packet)
   | [] => .ok (.inl p)
   | b :: bs => do
     match ← addAttachment p b with
